@@ -3,7 +3,8 @@ runtime.final) executed on a symbolic termination event drawn from a model of wh
 The model rows are validated against the real interpreter by c18.py (part B)."""
 from .catalogue import Entry
 
-ROUTES = ("falloff", "sys_exit", "sys_exit_after_caught_exit0", "sys_exit_after_caught_exit3", "raise_systemexit", "exception", "keyboardinterrupt")
+ROUTES = ("falloff", "sys_exit", "sys_exit_after_caught_exit0", "sys_exit_after_caught_exit3", "raise_systemexit", "exception", "keyboardinterrupt",
+          "falloff_after_caught_exit0", "falloff_after_caught_exit3", "exception_after_caught_exit0", "keyboardinterrupt_after_caught_exit0")
 KINDS = ("none", "int", "true", "false", "str_empty", "str_x", "float", "list")
 
 
@@ -21,11 +22,11 @@ def payload(k, kind):
 
 def status_model(route, kind, c):
     """process exit status CPython produces (the trusted table; each row is replayed in a subprocess by part B)"""
-    if route == "falloff":
+    if route.startswith("falloff"):
         return 0
-    if route in ("exception",):
+    if route.startswith("exception"):
         return 1
-    if route == "keyboardinterrupt":
+    if route.startswith("keyboardinterrupt"):
         return 130
     # sys.exit(c) and raise SystemExit(c) / exit(c): status is derived from the code object
     if kind == "none": return 0
@@ -63,6 +64,15 @@ def run_event(k, route, kind, autoprove, has_ps):
         rt.autoprove = autoprove
         c = payload(k, kind)
         # ---- what the interpreter does for this way of terminating
+        if "_after_caught_exit" in route and not route.startswith("sys_exit"):
+            # an earlier sys.exit(k) was intercepted by the script; the run then ends in the way named first
+            try:
+                ov.exit(int(route[-1]))
+            except SystemExit:
+                pass
+            route0 = route.split("_after_")[0]
+        else:
+            route0 = route
         if route == "sys_exit":
             try:
                 ov.exit(c)                 # sys.exit is bound to the interposer
@@ -80,9 +90,9 @@ def run_event(k, route, kind, autoprove, has_ps):
                 pass
         elif route == "raise_systemexit":
             pass                           # SystemExit raised directly: neither sys.exit nor sys.excepthook is involved
-        elif route == "exception":
+        elif route0 == "exception":
             ov.excepthook(Boom, Boom("x"), None)
-        elif route == "keyboardinterrupt":
+        elif route0 == "keyboardinterrupt":
             ov.excepthook(KeyboardInterrupt, KeyboardInterrupt(), None)
         # ---- atexit: the registered callback is maybe(final)
         try:
